@@ -82,6 +82,14 @@ def _lose(plan_entry: dict, job) -> None:
     names = [posixpath.join(s, t) for s, t in plan_entry.get("lose", [])] or [job.name]
     for name in [posixpath.join(s, t) for s, t in plan_entry.get("replicate", [])]:
         _replicate(name)
+    for st, tg, fname in plan_entry.get("lose_files", []):      # ONE file of a job's output (e.g. one field of a record)
+        name = posixpath.join(st, tg)
+        dirs = _job_dirs(name)
+        path = os.path.join(dirs[1], fname) if dirs else None
+        if path and os.path.exists(path):
+            os.remove(path)
+            STATE["deleted"].append((name, path))
+            _ev("lose", name)
     for name in names:
         dirs = _job_dirs(name)
         if name == job.name and dirs is None:
@@ -164,7 +172,29 @@ def _classes():
                     {"status": cmd_out.status})
                 _ev("fail", job.name)
                 return cmd_out
-            out = await super().execute(job)
+            try:
+                op = eval(self.command)(job.inputs)  # noqa: S307  (the repo's test command does the same)
+            except Exception:  # noqa: BLE001
+                op = None
+            if op and op[0] == "mkrecord":
+                # a job whose output is a RECORD of three files written into its output directory (content derived from its input)
+                os.makedirs(job.output_directory, exist_ok=True)
+                src = op[2]
+                text = open(src).read() if isinstance(src, str) and os.path.isfile(src) else str(src)
+                value = {}
+                for k in range(3):
+                    path = os.path.join(job.output_directory, f"rec-f{k}")
+                    with open(path, "w") as fh:
+                        fh.write(f"{text}|field{k}")
+                    value[f"f{k}"] = {"class": "File", "path": path, "basename": f"rec-f{k}"}
+                out = CommandOutput(value, Status.COMPLETED)
+                context = self.step.workflow.context
+                job_token = get_job_token(job.name, self.step.get_job_port().token_list)
+                await context.database.update_execution(
+                    await context.database.add_execution(self.step.persistent_id, job_token.persistent_id, self.command),
+                    {"status": out.status})
+            else:
+                out = await super().execute(job)
             _ev("exec" if out.status == Status.COMPLETED else "fail", job.name)
             return out
 
@@ -358,6 +388,18 @@ async def _build(case: dict, context, workflow, translator, dep: str, location):
             st = stage(f"s{i}", ports, "out", "file" if kind == "file" else "primitive")
             ports = st.get_output_ports()
         return {"out": ports["out"]}, steps
+    if shape["kind"] == "record":
+        # source -> a (output: a record = ObjectToken of three files) -> b (copies field f1 of the record)
+        value = await _file(context, location, "payload-record")
+        a = translator.get_execute_pipeline(command="lambda x : ('mkrecord', 'object', x['out'].value['path'] if isinstance(x['out'].value, dict) else x['out'].value)",
+                                            deployment_names=[dep], input_ports={"out": await source("out", value)},
+                                            outputs={"out": "object"}, step_name="/a", workflow=workflow)
+        steps["/a"] = a
+        b = translator.get_execute_pipeline(command="lambda x : ('copy', 'file', x['out'].value['f1'].value)", deployment_names=[dep],
+                                            input_ports={"out": a.get_output_port("out")}, outputs={"out": "file"}, step_name="/b",
+                                            workflow=workflow)
+        steps["/b"] = b
+        return {"out": b.get_output_port("out")}, steps
     if shape["kind"] == "scatter":
         m = shape["m"]
         value = [await _file(context, location, f"payload-{i}") for i in range(m)]
